@@ -8,7 +8,7 @@ MANIFEST = {
     "text": "whenever one of the 12 porcelain operations returns an error, HEAD, both branches, the index (entries and flags) and every tracked worktree file are exactly as before the call. Universes: one path with regular/executable/symlink entries (all 625 H/I/W/T combinations), a directory/file conflict pair, two independent paths.",
     "note": "Bounded universes (<= 2 paths, 2 blob contents); submodules, sparse cones (C32) and linked worktrees (C33) are separate; the git leg is sampled within the process budget.",
 }
-ALL = ["reset-hard", "checkout-force", "checkout", "reset-merge", "reset-keep", "add", "add-all", "remove", "move", "clean", "commit"]
+ALL = ["reset-hard", "checkout-force", "checkout-force-create", "checkout", "checkout-twin", "checkout-create", "reset-merge", "reset-keep", "add", "add-all", "remove", "move", "clean", "commit"]
 
 
 def run(ctx):
